@@ -23,10 +23,11 @@
 EXTENDS Integers, Sequences, FiniteSets
 
 CONSTANTS Programs,      \* set of [funcs : Seq(Seq(instr)), glyph : Seq(instr)]
-          StackMax, CallMax, Limit, MaxRun
+          StackMax, CallMax, Limit, MaxRun,
+          NPoints, NCvt    \* points of the glyph incl. phantom points, CVT entries
 
-VARIABLES p, cur, pc, stack, calls, bj, lc, steps, status
-vars == <<p, cur, pc, stack, calls, bj, lc, steps, status>>
+VARIABLES p, cur, pc, stack, calls, bj, lc, loop, steps, status
+vars == <<p, cur, pc, stack, calls, bj, lc, loop, steps, status>>
 
 I(op, arg) == [op |-> op, arg |-> arg]
 RECURSIVE FlatFrom(_, _)
@@ -42,9 +43,9 @@ FnStart(prog, f) == IF f < 0 \/ f >= Len(prog.funcs) THEN 0
 Code == IF cur = "font" THEN FontCode(p) ELSE p.glyph
 
 Init == /\ p \in Programs /\ cur = "glyph" /\ pc = 1 /\ stack = <<>> /\ calls = <<>>
-        /\ bj = 0 /\ lc = 0 /\ steps = 0 /\ status = "run"
+        /\ bj = 0 /\ lc = 0 /\ loop = 1 /\ steps = 0 /\ status = "run"
 
-S0 == [cur |-> cur, pc |-> pc, stack |-> stack, calls |-> calls, bj |-> bj, lc |-> lc, status |-> "run"]
+S0 == [cur |-> cur, pc |-> pc, stack |-> stack, calls |-> calls, bj |-> bj, lc |-> lc, loop |-> loop, status |-> "run"]
 Halt(st, s) == [st EXCEPT !.status = s]
 Top == stack[Len(stack)]
 Pop1 == SubSeq(stack, 1, Len(stack) - 1)
@@ -115,19 +116,38 @@ Exec ==
                    IF count <= 0 THEN [st EXCEPT !.pc = pc + 1]
                    ELSE IF lc + count > Limit THEN Halt(st, "ExceededExecutionBudget")
                    ELSE Enter([st EXCEPT !.lc = lc + count], f, count)
+         \* instructions whose work is controlled by a stack operand: the guards are the clamp of the pair count to
+         \* what is on the stack (DELTAC) and the 16-bit clamp of the loop counter (SLOOP) - the work of one
+         \* instruction never exceeds OpWork
+         [] ins.op = "DELTAC" ->
+              IF stack = <<>> THEN Halt(S0, "ValueStackUnderflow")
+              ELSE IF Top < 0 THEN Halt([S0 EXCEPT !.stack = Pop1], "InvalidStackValue")
+              ELSE LET have == (Len(stack) - 1) \div 2
+                       k == IF Top < have THEN Top ELSE have
+                   IN IF k > 0 /\ NCvt = 0 THEN Halt([S0 EXCEPT !.stack = Pop1], "InvalidCvtIndex")
+                      ELSE [next EXCEPT !.stack = SubSeq(stack, 1, Len(stack) - 1 - 2 * k)]
+         [] ins.op = "SLOOP" ->
+              IF stack = <<>> THEN Halt(S0, "ValueStackUnderflow")
+              ELSE IF Top < 0 THEN Halt([S0 EXCEPT !.stack = Pop1], "NegativeLoopCounter")
+              ELSE [next EXCEPT !.stack = Pop1, !.loop = IF Top > 65535 THEN 65535 ELSE Top]
+         [] ins.op = "FLIPPT" ->
+              IF Len(stack) < loop THEN Halt([S0 EXCEPT !.loop = 1], "ValueStackUnderflow")
+              ELSE IF \E i \in (Len(stack) - loop + 1)..Len(stack) : stack[i] < 0 \/ stack[i] >= NPoints
+                   THEN Halt([S0 EXCEPT !.loop = 1], "InvalidPointIndex")
+              ELSE [next EXCEPT !.stack = SubSeq(stack, 1, Len(stack) - loop), !.loop = 1]
          [] OTHER -> Halt(S0, "UnhandledOpcode")
 
 Step ==
   /\ status = "run"
   /\ LET n == Exec IN
-     /\ cur' = n.cur /\ pc' = n.pc /\ stack' = n.stack /\ calls' = n.calls /\ bj' = n.bj /\ lc' = n.lc /\ status' = n.status
+     /\ cur' = n.cur /\ pc' = n.pc /\ stack' = n.stack /\ calls' = n.calls /\ bj' = n.bj /\ lc' = n.lc /\ loop' = n.loop /\ status' = n.status
   /\ steps' = steps + 1 /\ UNCHANGED p
 
 Spec == Init /\ [][Step]_vars /\ WF_vars(Step)
 
-ErrorKinds == {"ExceededExecutionBudget", "ValueStackOverflow", "ValueStackUnderflow", "InvalidJump", "InvalidDefinition",
+ErrorKinds == {"InvalidStackValue", "InvalidCvtIndex", "NegativeLoopCounter", "InvalidPointIndex", "ExceededExecutionBudget", "ValueStackOverflow", "ValueStackUnderflow", "InvalidJump", "InvalidDefinition",
                "CallStackOverflow", "CallStackUnderflow", "UnexpectedEndOfBytecode", "DefinitionInGlyphProgram", "UnhandledOpcode"}
-TypeOK == /\ Len(stack) <= StackMax /\ Len(calls) <= CallMax /\ bj <= Limit /\ lc <= Limit
+TypeOK == /\ Len(stack) <= StackMax /\ Len(calls) <= CallMax /\ bj <= Limit /\ lc <= Limit /\ loop \in 0..65535
           /\ status \in {"run", "ok"} \cup ErrorKinds
 \* no program runs longer than the budgets allow: each of at most Limit backward jumps / loop iterations / calls can
 \* be followed by at most one pass over the code
